@@ -45,6 +45,17 @@ def two_ceilo_scenes(tier):
         out.append(('2c:fallback:%d' % na,
                     D({'h': 1000., 'n': 30, 'pattern': 'jitter', 'ceilo': 1}, {'h': 1060., 'n': na, 'ceilo': 0},
                       {'h': 3000., 'n': 30}, T=30, ceilos=['a', 'b'])))
+    # the non-excluded ceilometer contributes 4-6 raw hits that belong to only 2-3 measurements (first + second hit in one set)
+    for nmeas in (2, 3):
+        rows = []
+        for i in range(20):
+            dt = 0.0 - 15. * (19 - i)
+            rows.append(['b', dt, 2040. + (i % 3), 1])
+            if i < nmeas:
+                rows += [['a', dt, 1980. + i, 1], ['a', dt, 1990. + i, 2]]
+            else:
+                rows.append(['a', dt, None, 0])
+        out.append(('2c:fallback-multi:%d' % nmeas, {'gen': 'rows', 'rows': rows}))
     return out
 
 
@@ -192,4 +203,20 @@ def sync_tie_scenes(tier=None):
                     rows.append(['c%d' % k, dt, 1000. + 5. * (i % 3 - 1), 1])
                     rows.append(['c%d' % k, dt, up, 2])
             out.append(('sync:%g:%d:%d' % (d, step_back, c), {'gen': 'rows', 'rows': rows}))
+    return out
+
+
+def single_survivor_scenes(tier=None):
+    """A two-level high cloud (first + second hits, all above a 10000 ft MSA) and ONE low first hit at time step k: after the crop exactly
+    one valid hit survives, at a row position that may coincide with the label of a dropped row."""
+    out = []
+    for k in (0, 3, 5, 6, 7, 9):
+        rows = []
+        for i in range(10):
+            dt = 0.0 - 15. * (9 - i)
+            if i == k:
+                rows.append(['a', dt, 500., 1])
+            else:
+                rows += [['a', dt, 12000. + 10 * i, 1], ['a', dt, 15000. + 10 * i, 2]]
+        out.append(('single-survivor:%d' % k, {'gen': 'rows', 'rows': rows}))
     return out
